@@ -1927,10 +1927,14 @@ func PeekByte(vm *VM, streamOrAlias, inByte Term, k Cont, env *Env) *Promise {
 		return Error(typeError(validTypeInByte, inByte, env))
 	}
 
+	eos := s.endOfStream
 	b, err := s.ReadByte()
-	defer func() {
+	switch err {
+	case nil:
 		_ = s.UnreadByte()
-	}()
+	case io.EOF:
+		s.endOfStream = eos // Peeking doesn't consume the end of file either.
+	}
 	switch err {
 	case nil:
 		return Unify(vm, inByte, Integer(b), k, env)
@@ -1965,10 +1969,14 @@ func PeekChar(vm *VM, streamOrAlias, char Term, k Cont, env *Env) *Promise {
 		return Error(typeError(validTypeInCharacter, char, env))
 	}
 
+	eos := s.endOfStream
 	r, _, err := s.ReadRune()
-	defer func() {
+	switch err {
+	case nil:
 		_ = s.UnreadRune()
-	}()
+	case io.EOF:
+		s.endOfStream = eos // Peeking doesn't consume the end of file either.
+	}
 	switch err {
 	case nil:
 		if r == unicode.ReplacementChar {
